@@ -45,7 +45,8 @@ FAULTS = ["none", "none", "none", "account", "interval", "interval-hardened", "w
           "missing-positional", "mnemonic-len", "no-command", "unknown-option"]
 FILE_STATES = ["none", "none", "absent", "absent", "existing", "directory", "missing-parent", "parent-is-file",
                "symlink-existing", "symlink-dangling", "twice", "tilde-existing", "existing-dotslash",
-               "fifo", "devnull", "symlink-devnull", "existing-empty", "symlink-dir-dotdot"]
+               "fifo", "devnull", "symlink-devnull", "existing-empty", "symlink-dir-dotdot", "existing-trailing-slash",
+               "existing-slash-dot"]
 
 
 def gen_intent(tier):
@@ -114,6 +115,13 @@ def build_argv(it, tmp):
                 f.write(SENTINEL)
             info["sentinels"].append(mk("have.json"))
             path = mk("have.json") if fstate == "existing" else "./have.json"
+        elif fstate in ("existing-trailing-slash", "existing-slash-dot"):
+            # an existing regular file spelled with a trailing separator (`wallet.json/`, `wallet.json/.`)
+            with open(mk("have.json"), "w") as f:
+                f.write(SENTINEL)
+            info["sentinels"].append(mk("have.json"))
+            info["existing_special"] = mk("have.json")
+            path = (mk("have.json") if fv % 2 else "have.json") + ("/" if fstate == "existing-trailing-slash" else "/.")
         elif fstate == "directory":
             os.mkdir(mk("adir"))
             path = mk("adir")
@@ -541,6 +549,14 @@ def enum_grid(tier):
                    "order": [0, 1, 2, 3, 4], "subprocess": 0 if fault == "none" else 99}
 
 
+def enum_grid_and_wide(tier):
+    yield from enum_grid(tier)
+    # one accepted command line with more rows than any batch size a generator might use internally
+    yield {"cmd": "from-bip39-seed", "entropy": bytes(16), "seed": bytes(range(64)), "pw": None, "words": 12, "testnet": False, "paranoia": True,
+           "account": 3, "interval": [300, 1340] if tier == "quick" else [7, 2100], "file": "none", "fault": "none", "fv": 0,
+           "spell": [0, 0, 0, 0, 0, 0], "order": [0, 1, 2, 3, 4], "subprocess": 99}
+
+
 def gen_thorough(tier):
     base = gen_intent(tier)
     if tier == "thorough":
@@ -609,7 +625,7 @@ def clauses():
                "outside), rows are m/P'/c'/a'/0/i with non-hardened i inside the requested interval; 3% (quick) / 5% "
                "(thorough) re-run as a real `python -m btc_hd_wallet` subprocess; non-trivial = faulted intent or "
                "non-default network/account/interval/file",
-               gen=gen_thorough, enum=enum_grid, enum_desc="19 fault kinds x 16 file-path states (absent, existing, directory, symlinks, named pipe, /dev/null, ...)",
+               gen=gen_thorough, enum=enum_grid_and_wide, enum_desc="19 fault kinds x 18 file-path states (absent, existing, directory, symlinks, named pipe, /dev/null, ...)",
                nontrivial=nt_intent, classes=classes_intent,
                n={"quick": 420, "thorough": 10000}, shards={"quick": 16, "thorough": 16}),
         Clause("broken-pipe", check_pipe,
